@@ -1,6 +1,6 @@
 #!/bin/sh
 # usage: tools/verify_seed.sh <prop> <A|B>   -> prints one result line; uses a scratch worktree of /repo HEAD
-prop="$1"; x="$2"; d=/tmp/seeds/$prop; wt=/tmp/wt/verify_${prop}_$x
+prop="$1"; x="$2"; d=${SEEDDIR:-/tmp/seeds}/$prop; wt=/tmp/wt/verify_${prop}_$x
 git -C /repo worktree remove --force $wt 2>/dev/null
 git -C /repo worktree add -q --detach $wt HEAD || exit 2
 cd $wt || exit 2
